@@ -251,9 +251,15 @@ def _exact_sqrt(fr: fractions.Fraction):
     return None
 
 
+SIMPLIFY_DIV = False     # set per path from Config.simplify_div (geometry harnesses)
+
+
 def _div(a, b):
-    """a / b; t / t and t / (-t) become +-1 when the path implies t != 0 (keeps normalised
-    directions such as tangent / |tangent| out of nonlinear arithmetic)."""
+    """a / b; with SIMPLIFY_DIV, t / t and t / (-t) become +-1 and 0 / t becomes 0 when the path
+    implies t != 0 (keeps normalised directions such as tangent / |tangent| out of nonlinear
+    arithmetic)."""
+    if not SIMPLIFY_DIV:
+        return a / b
     if (z3.is_rational_value(a) or z3.is_int_value(a)) and a.as_fraction() == 0 \
             and not (z3.is_rational_value(b) or z3.is_int_value(b)):
         try:
